@@ -464,6 +464,36 @@ func gen(r *sim.Rng, tier string) *sim.Case {
 		}
 		c.Sched.SpinBurn, c.Sched.FreezeAt = 0, -1
 	}
+	if r.Pct(2) {
+		// a contended deadline: one thread makes a single timed wait on a ring that is neither
+		// empty nor full but busy - another thread completes operation after operation of the same
+		// kind - and the threads take turns in lockstep, so that the waiter may lose the same
+		// race on every attempt up to and including the last one at its deadline
+		pop := r.Bool()
+		c.Params["cap_req"], c.Params["elem"], c.Params["twin"], c.Params["scenario"] = 16, r.N(2), 0, 0
+		c.Params["contended"] = 1
+		c.Params["pairs"] = 0
+		if r.Pct(30) {
+			c.Params["pairs"] = (1 << 32) - 1 - r.N(40)
+		}
+		waiter := sim.Op{Op: "PushWait", D: []int{1, 5, 9, 10, 11, 20}[r.N(6)], V: 1<<8 | 1}
+		busyOp := "Push"
+		c.Params["fill"] = 0
+		if pop {
+			waiter.Op, busyOp = "PopWait", "Pop"
+			c.Params["fill"] = 16
+		}
+		var busy []sim.Op
+		for i := 0; i < r.Range(10, 15); i++ {
+			busy = append(busy, sim.Op{Op: busyOp, V: 2<<8 | (i + 1)})
+		}
+		c.Programs = [][]sim.Op{{waiter}, busy}
+		c.Sched = enga.GenSched(r, 2, len(busy)+1, -1, false)
+		c.Sched.Policy = "lockstep"
+		c.Sched.Quanta = []int{r.Range(1, 4), r.Range(3, 8)}
+		c.Sched.TickPct = []int{5, 10, 25}[r.N(3)]
+		c.Sched.Stalls, c.Sched.SpinBurn, c.Sched.FreezeAt, c.Sched.ClockJumpPct = nil, 0, -1, 0
+	}
 	c.EnvSeed = r.U64() >> 12
 	return c
 }
@@ -606,6 +636,12 @@ func check(run *enga.Run) *sim.Violation {
 		}
 	}
 
+	if c.Sched != nil && c.Sched.Policy == "lockstep" {
+		run.Out.Probes["lockstep_schedule"]++
+	}
+	if c.P("contended") == 1 && len(recs) > 0 && len(recs[0]) > 0 && recs[0][0].Done && !recs[0][0].OK {
+		run.Out.Probes["timed_wait_lost_every_race_up_to_its_deadline"]++
+	}
 	end := res.End
 	if end == core.EndBudget && onlyIndefiniteWaits(c, recs, res) {
 		// Every call still running when the step budget ended is a wait without a deadline.  The
